@@ -246,6 +246,24 @@ int main(int argc, char ** argv)
                   }
                   for (int x = 0; x < extra_after && problem.empty(); x++)
                     if (rd.has_next_event()) { problem = "has_next_event() true again after it returned false"; pkey = "has_next-revives"; }
+                  if (problem.empty() && pattern % 2 == 0) {
+                    // a caller that does not ask first: once the window is exhausted, load_next_event must refuse, never deliver
+                    bxdecay0::event e;
+                    bool threw = false;
+                    try {
+                      rd.load_next_event(e);
+                    } catch (std::exception &) {
+                      threw = true;
+                    }
+                    if (!threw) {
+                      problem = fmt("load_next_event() after the end of the window delivered an event (time %.17g, %zu particles)", e.get_time(), e.get_particles().size());
+                      pkey = "load-after-the-end";
+                    }
+                    if (problem.empty() && !rd.is_terminated() && !got.empty()) {
+                      problem = "the window was delivered completely but is_terminated() is false";
+                      pkey = "not-terminated-after-window";
+                    }
+                  }
                   if (problem.empty() && rd.get_loaded_event_counter() != (int)got.size()) {
                     problem = fmt("loaded counter %d, delivered %zu", rd.get_loaded_event_counter(), got.size());
                     pkey = "loaded-counter";
